@@ -43,7 +43,7 @@ META = {
                     "p2p shuffle (distributed) is out of reach"],
 }
 
-KEYKINDS = ("int", "str", "float_nan", "cat")
+KEYKINDS = ("int", "str", "float_nan", "cat", "str_na", "cat_na")
 
 
 GC_EACH_RUN = True  # see sim/worker.run_tape
@@ -76,6 +76,8 @@ def make_frame(tape, cfg):
         # pandas 3 native string dtype (python storage); object dtype would make dask's meta
         # emulation use bare object() placeholders, which is an artefact of the missing pyarrow
         k = pd.Series([f"s{v}" for v in raw], dtype="str")
+    elif kind == "str_na":
+        k = pd.Series([np.nan if v == 0 else f"s{v}" for v in raw], dtype="str")
     elif kind == "float_nan":
         k = pd.Series([np.nan if v == 0 else v / 2.0 for v in raw], dtype="float64")
     else:
@@ -84,8 +86,9 @@ def make_frame(tape, cfg):
         for i in range(card - 1, 0, -1):
             j = tape.draw(i + 1, "catperm")
             cats[i], cats[j] = cats[j], cats[i]
-        k = pd.Series(pd.Categorical([f"c{v}" for v in raw], categories=cats,
-                                     ordered=tape.chance(1, 2, "ordered")))
+        vals = [np.nan if (kind == "cat_na" and v == 0) else f"c{v}" for v in raw]
+        k = pd.Series(pd.Categorical(vals, categories=cats, ordered=tape.chance(1, 2, "ordered")))
+        kind = "cat"
     df = pd.DataFrame({"k": k, "w": [tape.draw(3, "w") for _ in range(n)], "v": np.arange(n)})
     if tape.chance(1, 3, "presorted"):
         # input already ordered on the key (duplicates then tend to sit on partition boundaries)
@@ -129,8 +132,10 @@ def run_one(tape, cfg):
     out.probe(method)
     if any(len(p) == 0 for p in pieces):
         out.probe("empty_partition")
-    if kind == "float_nan" and df["k"].isna().any():
+    if df["k"].isna().any():
         out.probe("na_keys")
+        if kind != "float_nan":
+            out.probe("na_keys_nonnumeric")
     if method == "tasks" and nout > max_branch:
         out.probe("multi_stage_tasks")
     if kind == "cat" and list(df["k"].cat.categories) != sorted(df["k"].cat.categories):
@@ -191,21 +196,30 @@ def run_one(tape, cfg):
                     if g1 != g2:
                         problem = ("sort_rows_changed", "rows moved between key groups")
             elif op == "set_index":
-                if df["k"].isna().any():
-                    out.status = "discard"   # NA in the index column: set_index drops / rejects by design
+                if kind == "cat" and df["k"].isna().any():
+                    # no reference: pandas' own sort_index of a CategoricalIndex puts nulls first or last
+                    # depending on the category order
+                    out.status = "discard"
                     return out
                 r = d.set_index("k", npartitions=nout, shuffle_method=method)
                 parts = dask.compute(*r.to_delayed())
                 got = pd.concat(parts) if parts else None
-                want = df.set_index("k").sort_index(kind="stable")
-                if got is None or got.index.tolist() != want.index.tolist():
-                    problem = ("set_index_order", f"index {None if got is None else got.index.tolist()} != "
-                                                  f"pandas {want.index.tolist()}")
+                want = df.set_index("k").sort_index(kind="stable")      # nulls last, as in dask
+
+                def ilist(f):
+                    ser = pd.Series(f.index)
+                    return ser.astype(object).where(ser.notna(), "<NA>").tolist()
+
+                if got is None or ilist(got) != ilist(want):
+                    problem = ("set_index_order", f"index {None if got is None else ilist(got)} != "
+                                                  f"pandas {ilist(want)}")
                 elif sorted(got["v"].tolist()) != list(range(n)):
                     problem = ("set_index_rows_changed", f"v={sorted(got['v'].tolist())}")
                 else:
-                    g1 = got.groupby(level=0)["v"].apply(lambda s: sorted(s)).to_dict()
-                    g2 = want.groupby(level=0)["v"].apply(lambda s: sorted(s)).to_dict()
+                    g1 = got.groupby(level=0, dropna=False)["v"].apply(lambda s: sorted(s)).to_dict()
+                    g2 = want.groupby(level=0, dropna=False)["v"].apply(lambda s: sorted(s)).to_dict()
+                    g1 = {("<NA>" if pd.isna(a) else a): b for a, b in g1.items()}
+                    g2 = {("<NA>" if pd.isna(a) else a): b for a, b in g2.items()}
                     if g1 != g2:
                         problem = ("set_index_rows_changed", "rows moved between index values")
                     if r.known_divisions and problem is None and kind != "cat":
